@@ -34,6 +34,8 @@ pub struct Variant {
 }
 
 pub struct Space<'a> {
+    /// C03: additionally run every history that ends at scope depth 0 six times in a `history; reset()` loop
+    pub reset_loop: bool,
     /// every explored prefix history is additionally extended by every `suffix` op, and that by every `tail` op
     /// (used when one family of operations has a large parameter space of its own, C15)
     pub suffix: Vec<Op>,
@@ -261,6 +263,18 @@ pub fn explore(space: &Space<'_>) -> Report {
                                     });
                                     if v.len() >= space.max_violations {
                                         stop.store(true, Ordering::Relaxed);
+                                    }
+                                } else if space.reset_loop && hist.len() < space.depth && !hist.iter().any(|o| matches!(o, Op::Reset | Op::ResetToStart)) {
+                                    bump(&counters.fault_runs);
+                                    if let Some(m) = run_reset_loop(entry, &hist, params, 6) {
+                                        let mut v = violations.lock().unwrap();
+                                        let mut a = replay_args(entry, params, &hist);
+                                        a.push("--reset-loop".into());
+                                        a.push("1".into());
+                                        v.push(ViolRec { cfg: entry.cfg.name(), params: params.describe(), history: history_to_string(&hist), len: hist.len(), step: hist.len(), msg: m, replay_args: a });
+                                        if v.len() >= space.max_violations {
+                                            stop.store(true, Ordering::Relaxed);
+                                        }
                                     }
                                 } else if !space.suffix.is_empty() {
                                     suffix_sweep(space, entry, params, &hist, ci, pi, &counters, &violations, &stop, &samples, &mut local_states);
